@@ -157,7 +157,14 @@ fn altitudes(c: &mut Ctx) {
             continue; // sentinel / not representable: outside this property (C13 covers them)
         }
         for tc in [9u8, 14, 18, 20, 22] {
-            let f = frames::df17(5, AA, &frames::me_airborne(tc, 0, 0, frames::ac12_from_n(n), 0, 0, 1000, 2000));
+            // the position counts next to the altitude are anything, including 0/0 (a zone corner) and all ones
+            let (yz, xz) = match n % 5 {
+                0 => (0, 0),
+                1 => (0x1ffff, 0x1ffff),
+                2 => (0, 77),
+                _ => (1000 + n as u32, 2000),
+            };
+            let f = frames::df17(5, AA, &frames::me_airborne(tc, 0, 0, frames::ac12_from_n(n), 0, (n & 1) as u8, yz, xz));
             if let Some(v) = decode(c, &f, "altitude:BDS05") {
                 expect_num(c, &f, "altitude:BDS05", &v["altitude"], alt as f64, 0.0, n as i64);
             }
